@@ -129,6 +129,12 @@ def res(lang_, form):
     return ["{{ result().val }}", "{{ result()['val'] }}", '{{ result().get("val") }}'][form % 3]
 
 
+def res2(lang_, form):
+    if lang_ == "yaql":
+        return ["<% result().val3 %>", "<% result().get(val3) %>", "<% result()[val3] %>"][form % 3]
+    return ["{{ result().val3 }}", "{{ result()['val3'] }}", '{{ result().get("val3") }}'][form % 3]
+
+
 def pipeline(lang_, forms):
     f = lambda i: forms[i % len(forms)]  # noqa
     return {
@@ -138,11 +144,11 @@ def pipeline(lang_, forms):
             "t1": {
                 "action": "core.act",
                 "input": {"a": ref("v", lang_, f(1)), "b": ref("w", lang_, f(2)), "k": "plain"},
-                "next": [{"publish": [{"p": res(lang_, f(3))}, {"q": ref("v", lang_, f(4))}], "do": ["t2"]}],
+                "next": [{"publish": [{"p": res(lang_, f(3))}, {"q": ref("v", lang_, f(4))}, {"w": res2(lang_, f(3))}], "do": ["t2"]}],
             },
             "t2": {
                 "action": "core.act",
-                "input": {"c": ref("p", lang_, f(5)), "d": ref("q", lang_, f(6))},
+                "input": {"c": ref("p", lang_, f(5)), "d": ref("q", lang_, f(6)), "e": ref("w", lang_, f(7))},
                 "next": [{"publish": [{"r": ref("p", lang_, f(7))}]}],
             },
         },
@@ -152,6 +158,9 @@ def pipeline(lang_, forms):
 
 def run_transport(scn, stats):
     V, V2 = scn["v"], scn["v2"]
+    V3 = scn.get("v3", V2)
+    if isinstance(V, dict) and isinstance(V3, dict):
+        V3 = [V3]  # a mapping republished over a mapping is merged key by key (not a transport question)
     defn = pipeline(scn["lang"], scn["forms"])
     drv = provider.Driver(defn, {"v": copy.deepcopy(V)})
     if drv.spec.inspect():
@@ -194,11 +203,12 @@ def run_transport(scn, stats):
         expect("vars->action input (w)", o["actions"][0]["input"].get("b"), V)
         expect("task context", o["ctx"].get("v"), V)
         maybe_restore()
-        drv.apply({"op": "done", "a": ["t1", 0, None], "status": "succeeded", "result": {"val": copy.deepcopy(V2)}})
+        drv.apply({"op": "done", "a": ["t1", 0, None], "status": "succeeded", "result": {"val": copy.deepcopy(V2), "val3": copy.deepcopy(V3)}})
         noleak("after t1")
         ctxs = drv.c.serialize()["state"]["contexts"]
         expect("result->publish", ctxs[-1].get("p"), V2)
         expect("context->publish", ctxs[-1].get("q"), V)
+        expect("result->republish of an existing variable", ctxs[-1].get("w"), V3)
         maybe_restore()
         r = drv.apply({"op": "poll"})
         if [o["id"] for o in r["offers"]] != ["t2"]:
@@ -206,6 +216,7 @@ def run_transport(scn, stats):
         o = r["offers"][0]
         expect("publish->action input (p)", o["actions"][0]["input"].get("c"), V2)
         expect("publish->action input (q)", o["actions"][0]["input"].get("d"), V)
+        expect("republished variable->action input (w)", o["actions"][0]["input"].get("e"), V3)
         maybe_restore()
         drv.apply({"op": "done", "a": ["t2", 0, None], "status": "succeeded", "result": None})
         maybe_restore()
@@ -219,7 +230,7 @@ def run_transport(scn, stats):
         expect("publish->output (p)", out.get("o1"), V2)
         expect("input->output (v)", out.get("o2"), V)
         expect("republish->output (r)", out.get("o3"), V2)
-        expect("vars->output (w)", out.get("o4"), V)
+        expect("republished->output (w)", out.get("o4"), V3)
         noleak("end")
         # the whole persisted form must itself survive persistence unchanged
         s1 = drv.c.serialize()
@@ -241,14 +252,34 @@ def run_transport(scn, stats):
         stats.sample({"v": repr(V)[:200], "v2": repr(V2)[:200], "lang": scn["lang"], "forms": scn["forms"], "restore": sorted(restore)})
 
 
+def twin_of(v):
+    """A value that compares equal to v in Python but is a different JSON value (or v itself if none)."""
+    if v is True:
+        return 1
+    if v is False:
+        return 0
+    if isinstance(v, int):
+        return bool(v) if v in (0, 1) else float(v) if abs(v) < 2**53 else v
+    if isinstance(v, float) and v == int(v) and abs(v) < 2**53:
+        return int(v)
+    if isinstance(v, list):
+        return [twin_of(x) for x in v]
+    if isinstance(v, dict):
+        return {k: twin_of(x) for k, x in v.items()}
+    return v
+
+
 def strat_transport(tier):
-    return st.fixed_dictionaries({
-        "v": values(),
+    base = st.fixed_dictionaries({
+        "v": st.one_of(values(), st.sampled_from([0, 1, True, False, 1.0, 0.0, [0, 1], [True], {"n": 1}])),
         "v2": values(),
+        "v3mode": st.sampled_from(["twin", "twin", "fresh"]),
+        "v3fresh": values(),
         "lang": st.sampled_from(["yaql", "jinja"]),
         "forms": st.lists(st.integers(0, 11), min_size=3, max_size=12),
         "restore": st.sets(st.integers(1, 7), max_size=3).map(sorted),
     })
+    return base.map(lambda d: dict(d, v3=twin_of(d["v"]) if d["v3mode"] == "twin" else d["v3fresh"]))
 
 
 # ----------------------------------------------------------------------------- purity
